@@ -31,6 +31,7 @@ except Exception:  # pragma: no cover
     pass
 ATTR_KEYS = ["color", "w", "label", "tag", "weight"]
 ATTR_VALS = [0, 1, 2, "red", "blue", 0.5, None, True]
+FW_VALS = [0.1, 0.2, 0.3, 0.3, 0.7, 1e12, 1e12 + 1]  # sums such as 0.1 + 0.2 are not exactly 0.3
 MTYPES = ["list", "list", "list", "tuple", "set", "frozenset"]
 
 
@@ -95,7 +96,16 @@ class Gen:
                 out.append(n)
         return out
 
-    def attr(self, p=0.35, single=False):
+    def attr(self, p=0.35, single=False, as_dict=False):
+        d = self._attr(p, single)
+        if as_dict and d and self.r.random() < 0.15:
+            # a dict handed over *as a dict* (never as **kwargs) may carry any key: one that is also
+            # a parameter name of the mutators, or (where nothing goes through JSON) a non-string key
+            keys = ["node", "self", "idx", "members", "edge"] + ([] if self.cfg.get("json_attrs") else [2020])
+            d[self.r.choice(keys)] = self.r.choice([0, 1, 2])
+        return d
+
+    def _attr(self, p=0.35, single=False):
         # nested mutable values only where the dict belongs to exactly one node / edge: a
         # value passed as **attr of a bulk call is (legitimately) shared by all its edges
         nested = single and self.cfg.get("nested_attrs", False)
@@ -106,6 +116,8 @@ class Gen:
         for _ in range(self.r.randint(1, 2)):
             k = self.r.choice(ATTR_KEYS)
             d[k] = self.r.choice(vals)
+        if self.cfg.get("float_weight_key") and self.r.random() < 0.6:
+            d["fw"] = self.r.choice(FW_VALS)
         if nested and self.r.random() < 0.5:
             shape = self.r.random()
             if shape < 0.6:
@@ -181,7 +193,8 @@ class Gen:
         m = actor.model
         table = self.cfg["ops"][m.kind]
         op = self.weighted(table)
-        f = getattr(self, "g_" + m.kind + "_" + op, None) or getattr(self, "g_" + op)
+        f = getattr(self, "g_" + m.kind + "_" + op, None) or getattr(self, "g_" + op, None) or \
+            getattr(self, "g_H_" + op)  # a simplicial complex inherits the Hypergraph mutators
         return f(name, m, op)
 
     # ---------------------------------------------------------- shared ops
@@ -192,7 +205,7 @@ class Gen:
         items = []
         for _ in range(self.r.randint(0, 3)):
             n = self.pick_node(m, 0.3)
-            items.append([n, self.attr(0.8, single=True) if self.r.random() < 0.4 else None])
+            items.append([n, self.attr(0.8, single=True, as_dict=True) if self.r.random() < 0.4 else None])
         fault = self.maybe_fault(["none_node", "unhashable_node", "dying"], len(items))
         return self.rec(name, op, {"items": items, "attr": self.attr(), "stream": self.stream()}, fault)
 
@@ -220,11 +233,11 @@ class Gen:
         if mode == 1:  # name + scalar
             return self.r.choice(ATTR_VALS), self.r.choice(ATTR_KEYS)
         if mode == 2:  # dict of dicts
-            vals = {pick(): self.attr(1.0) for _ in range(self.r.randint(1, 3))}
+            vals = {pick(): self.attr(1.0, as_dict=True) for _ in range(self.r.randint(1, 3))}
             return vals, None
         if self.r.random() < 0.5:
             return self.r.choice([3, "x"]), None  # invalid: no name and not a dict
-        vals = {pick(): self.attr(1.0) for _ in range(self.r.randint(1, 2))}
+        vals = {pick(): self.attr(1.0, as_dict=True) for _ in range(self.r.randint(1, 2))}
         return vals, None
 
     def g_set_node_attributes(self, name, m, op):
@@ -286,7 +299,7 @@ class Gen:
                 if self.r.random() < 0.15 and used:
                     idx = self.r.choice(used)  # duplicate ID inside one bunch
                 used.append(idx)
-            a = self.attr(0.7, single=True) if fmt in (3, 4) else None
+            a = self.attr(0.7, single=True, as_dict=True) if fmt in (3, 4) else None
             items.append([mem, idx, a])
         if fmt in (2, 4) and len(items) > 1 and self.r.random() < 0.4:
             # non-increasing explicit IDs inside one bulk call
@@ -361,6 +374,17 @@ class Gen:
         else:
             e1, e2 = self.pick_edge(m), self.pick_edge(m)
         return self.rec(name, op, {"e1": e1, "e2": e2})
+
+    def g_SC_random_edge_shuffle(self, name, m, op):
+        """(inherited from Hypergraph; only generated in the C18 world) prefer a shuffle that breaks
+        the closure: a simplex of three or more nodes with one that shares no node with it"""
+        big = [e for e in m.edges if len(m.edges[e]) >= 3]
+        if big and self.r.random() < 0.7:
+            e1 = self.r.choice(big)
+            others = [e for e in m.edges if e != e1 and not (m.edges[e] <= m.edges[e1])]
+            if others:
+                return self.rec(name, op, {"e1": e1, "e2": self.r.choice(others)})
+        return self.g_H_random_edge_shuffle(name, m, op)
 
     def g_H_merge_duplicate_edges(self, name, m, op):
         rename = self.r.choice(["first", "first", "tuple", "new", "bogus"] if self.r.random() < 0.3
@@ -473,7 +497,7 @@ class Gen:
                 if self.r.random() < 0.15 and used:
                     idx = self.r.choice(used)
                 used.append(idx)
-            items.append([mem, idx, self.attr(0.7, single=True) if fmt in (3, 4) else None])
+            items.append([mem, idx, self.attr(0.7, single=True, as_dict=True) if fmt in (3, 4) else None])
         if items and len(items[-1][0]) >= 2 and self.r.random() < 0.25:
             # an overlapping simplex that lists two shared nodes in the opposite order
             prev = items[-1][0]
@@ -482,7 +506,7 @@ class Gen:
             mem.append(self.pick_node(m, 0.3))
             mem = [x for i, x in enumerate(mem) if x not in mem[:i]]
             idx = self.new_idx(m) if fmt in (2, 4, 5) else None
-            items.append([mem, idx, self.attr(0.7, single=True) if fmt in (3, 4) else None])
+            items.append([mem, idx, self.attr(0.7, single=True, as_dict=True) if fmt in (3, 4) else None])
         return items
 
     def g_SC_add_simplices_from(self, name, m, op):
